@@ -16,7 +16,14 @@ ID = "C05"
 RULE = ("matrices: exhaustive 0/1 matrices (quick <= 3x4 and 4x3, thorough <= 3x5 and 4x4; degenerate 0-row / 0-column "
         "shapes for solve_consecutive_ones), random up to 6x7 (planted intervals under a hidden column permutation "
         "with 0-4 bit flips, duplicated and all-zero rows and columns, uniform), block-structured matrices with <= 8 "
-        "columns (nested P/Q nodes, rows cutting through 2-3 blocks), large planted up to 40x40; instances: every "
+        "columns (nested P/Q nodes, rows cutting through 2-3 blocks); at >= 5 columns, where defects inside the PQ-tree "
+        "code show: all 3x5 matrices, every multiset of 4 rows over 5 columns in one arrangement, 'deep' planted "
+        "matrices (chains of overlapping intervals, nested and straddling intervals, 0-2 flips) with 5-7 columns "
+        "against the reference and with 8-12 columns (planted order certified by c1p_check => True is the proved "
+        "verdict; every returned order checked), tall near-miss matrices (7-10 rows, 5-9 columns, 1-3 flips), the same "
+        "matrices wrapped as instances for CI / DE (rows = ballots) and VI (rows = alternatives); large planted up to "
+        "40x40 (positive: planted order "
+        "certified by c1p_check; negative: an embedded Tucker submatrix certified by c1p_core + c1p_core_refuted_sound); instances: every "
         "recogniser on all ordered profiles of <= 3 ballots over <= 3 alternatives, 4 alternatives with <= 3 ballots "
         "(quick: ballot multisets in one random arrangement; thorough: all ordered profiles), random m, n <= 6 (thorough "
         "7) from planted CI / CEI / VI / VEI / partition / 2-partition / forbidden-cycle / uniform generators with "
@@ -26,10 +33,12 @@ RULE = ("matrices: exhaustive 0/1 matrices (quick <= 3x4 and 4x3, thorough <= 3x
         "c1p_decide(matrix) == ci_decide(instance). non-trivial = >= 3 columns (alternatives) and a row (ballot) with "
         ">= 2 ones and >= 1 zero")
 EXHAUSTIVE = {
-    "quick": "all 0/1 matrices with <= 3 rows and <= 4 columns, and 4x1..4x3; all ordered profiles with <= 3 ballots "
+    "quick": "all 0/1 matrices with <= 3 rows and <= 5 columns, and 4x1..4x3; every multiset of 4 rows over 5 columns "
+             "(one arrangement); all ordered profiles with <= 3 ballots "
              "over <= 3 alternatives, all ballot multisets of size <= 3 over 4 alternatives, for each of the 8 "
              "recognisers",
-    "thorough": "all 0/1 matrices up to 3x5 and 4x4; all ordered profiles with <= 3 ballots over <= 4 alternatives for "
+    "thorough": "all 0/1 matrices up to 3x6 and 4x4; every multiset of 4 and of 5 rows over 5 columns (one arrangement "
+                "each); all ordered profiles with <= 3 ballots over <= 4 alternatives for "
                 "each of the 8 recognisers",
 }
 TRUSTED = [
@@ -43,8 +52,9 @@ TRUSTED = [
 ASSUMPTIONS = [
     "instance.num_alternatives == len(instance.alternatives_name); approved alternatives are keys of alternatives_name",
     "isC1P is only called with >= 1 row and >= 1 column (it raises IndexError on a matrix without rows or columns)",
-    "2PART: 'at most two distinct approval sets' is read on profiles with >= 1 ballot (is_2_part answers False on a "
-    "profile without ballots; reported, theorem two_part_no_ballots)",
+    "2PART on a profile WITHOUT ballots: the reference (at most two distinct approval sets: zero qualifies) says "
+    "True, is_2_part says False (theorem two_part_no_ballots_refuted; reported as a finding). These 4 cases are "
+    "generated only once known_findings.json holds an OPEN C05 entry with match.predicate 'part2_no_ballots'",
     "ballots of the two partition domains are also exercised with empty approval sets; the theorems do not need the "
     "non-emptiness hypothesis",
 ]
@@ -142,6 +152,82 @@ def _block_matrix(rng, nc):
         rows.append(row)
     rng.shuffle(rows)
     return [[int(j in r) for j in range(nc)] for r in rows]
+
+
+def _deep_matrix(rng, nr, nc, flips=None):
+    """intervals under a hidden column order forming chains of overlapping intervals (Q-nodes), nested intervals
+    (nested P-nodes) and intervals straddling two earlier ones; 0-2 bit flips give near misses"""
+    hidden = list(range(nc))
+    rng.shuffle(hidden)
+    ivs = []
+    mode = rng.choice(["chain", "nested", "mixed", "mixed"])
+    while len(ivs) < nr:
+        kind = mode if mode != "mixed" else rng.choice(["chain", "nested", "rand", "straddle"])
+        if kind == "chain" or not ivs:
+            s_ = rng.randrange(0, max(1, nc - 2))
+            ln = rng.randint(2, max(2, min(4, nc - s_)))
+            ivs.append((s_, min(nc - 1, s_ + ln - 1)))
+            while len(ivs) < nr and rng.random() < 0.6:
+                ps, pe = ivs[-1]
+                if pe >= nc - 1:
+                    break
+                ivs.append((rng.randint(ps + 1, pe), rng.randint(pe + 1, min(nc - 1, pe + 3))))
+        elif kind == "nested":
+            ps, pe = rng.choice(ivs)
+            if pe - ps >= 1:
+                s2 = rng.randint(ps, pe)
+                ivs.append((s2, rng.randint(s2, pe)))
+            else:
+                ivs.append((max(0, ps - 1), min(nc - 1, pe + 1)))
+        elif kind == "straddle":
+            a, b = rng.choice(ivs), rng.choice(ivs)
+            lo, hi = min(a[0], b[0]), max(a[1], b[1])
+            s2 = rng.randint(lo, hi)
+            ivs.append((s2, rng.randint(s2, hi)))
+        else:
+            s2 = rng.randrange(nc)
+            ivs.append((s2, rng.randrange(s2, nc)))
+    ivs = ivs[:nr]
+    rng.shuffle(ivs)
+    rows = [[0] * nc for _ in ivs]
+    for r, (s_, e) in zip(rows, ivs):
+        for p_ in range(s_, e + 1):
+            r[hidden[p_]] = 1
+    if flips is None:
+        flips = rng.choice([0, 0, 1, 1, 2])
+    for _ in range(flips):
+        rows[rng.randrange(nr)][rng.randrange(nc)] ^= 1
+    return rows, (hidden if flips == 0 else None)
+
+
+def _uniform_matrix(rng, nr, nc):
+    p = rng.choice([0.3, 0.4, 0.5])
+    return [[int(rng.random() < p) for _ in range(nc)] for _ in range(nr)]
+
+
+# minimal matrices without the consecutive-ones property (Tucker): cycles M_I(k), M_III(1), M_III(2), M_II(2), M_IV, M_V.
+# The model re-checks each core (c05.c1p_core), nothing is taken on trust from this table.
+def _cores():
+    out = []
+    for k in (3, 4, 5):
+        out.append([[int(j in (i, (i + 1) % k)) for j in range(k)] for i in range(k)])
+    out.append([[1, 1, 0, 0], [0, 1, 1, 0], [0, 1, 0, 1]])
+    out.append([[1, 1, 0, 0, 0], [0, 1, 1, 0, 0], [0, 0, 1, 1, 0], [0, 1, 1, 0, 1]])
+    out.append([[1, 1, 0, 0, 0], [0, 1, 1, 0, 0], [0, 0, 1, 1, 0], [1, 1, 1, 0, 1], [0, 1, 1, 1, 1]])
+    out.append([[1, 1, 0, 0, 0, 0], [0, 0, 1, 1, 0, 0], [0, 0, 0, 0, 1, 1], [0, 1, 0, 1, 0, 1]])
+    out.append([[1, 1, 0, 0, 0], [0, 0, 1, 1, 0], [1, 1, 1, 1, 0], [1, 0, 0, 1, 1]])
+    return out
+
+
+def _embed_core(rng, rows, nc):
+    """overwrite a random submatrix of rows with a forbidden core; returns (row indices, column indices)"""
+    core = rng.choice(_cores())
+    ridx = rng.sample(range(len(rows)), len(core))
+    cols = rng.sample(range(nc), len(core[0]))
+    for i, r in zip(ridx, core):
+        for j, x in zip(cols, r):
+            rows[i][j] = x
+    return ridx, cols
 
 
 def _labels(rng, m):
@@ -303,6 +389,54 @@ def generate(tier, seed):
         nr, nc = rng.randint(8, 40), rng.randint(8, 40)
         rows, hidden = _planted_matrix(rng, nr, nc)
         out.append(_mcase(rows, nc, gen="planted-big", big=1, **({"planted": hidden} if hidden is not None else {})))
+    # ---- volume and structure at >= 5 columns (defects inside the PQ-tree code only show there) -------------
+    for rows in _all_matrices(3, 5):
+        if quick:
+            out.append(_mcase(rows, 5, exh=1))                   # (thorough: already in shapes)
+    words5 = [list(b) for b in itertools.product((0, 1), repeat=5)]
+    for comb in itertools.combinations_with_replacement(range(32), 4):
+        rows = [words5[i] for i in comb]
+        rng.shuffle(rows)                                        # every multiset of 4 rows, one arrangement
+        out.append(_mcase(rows, 5, exh=1, gen="4x5-multisets"))
+    if not quick:
+        words6 = [list(b) for b in itertools.product((0, 1), repeat=6)]
+        for bits in itertools.product(range(64), repeat=3):
+            out.append(_mcase([words6[i] for i in bits], 6, exh=1))
+        for comb in itertools.combinations_with_replacement(range(32), 5):
+            rows = [words5[i] for i in comb]
+            rng.shuffle(rows)
+            out.append(_mcase(rows, 5, exh=1, gen="5x5-multisets"))
+    ndeep = 8000 if quick else 60000
+    for i in range(ndeep):                                       # reference runs (<= 7 columns)
+        nr, nc = rng.randint(3, 7), rng.randint(5, 7)
+        if i % 3 == 2:
+            out.append(_mcase(_uniform_matrix(rng, nr, nc), nc, gen="uniform5-7"))
+        else:
+            rows, hidden = _deep_matrix(rng, nr, nc)
+            out.append(_mcase(rows, nc, gen="deep5-7", **({"planted": hidden} if hidden is not None else {})))
+    nwide = 24000 if quick else 200000
+    for i in range(nwide):                                       # 8-12 columns: witness check + planted certificate
+        nr, nc = rng.randint(3, 8), rng.randint(8, 12)
+        if i % 4 == 3:
+            out.append(_mcase(_uniform_matrix(rng, nr, nc), nc, gen="uniform8-12", big=1))
+        else:
+            rows, hidden = _deep_matrix(rng, nr, nc, flips=rng.choice([0, 0, 0, 1, 2]))
+            out.append(_mcase(rows, nc, gen="deep8-12", big=1, **({"planted": hidden} if hidden is not None else {})))
+    ntall = 20000 if quick else 150000
+    for i in range(ntall):          # many rows, near misses: a false True always carries an invalid column order
+        nr, nc = rng.randint(7, 10), rng.randint(5, 9)
+        if i % 3 == 2:
+            rows = [[int(rng.random() < 0.45) for _ in range(nc)] for _ in range(nr)]
+        else:
+            rows, _ = _deep_matrix(rng, nr, nc, flips=rng.choice([1, 2, 3, 3]))
+        tags = {"big": 1} if (i % 4 or nc > 7) else {}        # a quarter of the <= 7-column ones also get the reference
+        out.append(_mcase(rows, nc, gen="tall-near-miss", **tags))
+    ncore = 150 if quick else 1500
+    for i in range(ncore):
+        nr, nc = rng.randint(6, 40), rng.randint(6, 40)
+        rows, _ = _planted_matrix(rng, nr, nc)
+        ridx, cols = _embed_core(rng, rows, nc)
+        out.append(_mcase(rows, nc, gen="embedded-core", big=1, core=[ridx, cols]))
     # ---- (2) instances: exhaustive small ------------------------------------------------------------------
     label_sets = {0: [], 1: [7], 2: [4, 2], 3: [5, 3, 9], 4: [6, 1, 8, 3]}
     for m in range(0, 4):
@@ -335,6 +469,31 @@ def generate(tier, seed):
                 tags["planted"] = planted[dom]
             out.append(_icase(dom, alts, ballots, **tags))
         out.append(_icase("cimat", alts, ballots, ncat=1 + (i % 2)))
+    # ---- the deep matrices wrapped as approval instances (rows = ballots for CI / DE, rows = alternatives for VI)
+    nwrap = 2500 if quick else 25000
+    for i in range(nwrap):
+        nr, nc = rng.randint(3, 7), rng.randint(5, 12)
+        if i % 5 == 4:
+            rows, hidden = _uniform_matrix(rng, nr, nc), None
+        else:
+            rows, hidden = _deep_matrix(rng, nr, nc, flips=rng.choice([0, 0, 1, 2]))
+        labels = _labels(rng, nc)
+        ballots = [[labels[j] for j in range(nc) if r[j]] for r in rows]
+        for b in ballots:
+            rng.shuffle(b)
+        big = {"big": 1} if nc > 7 else {}
+        for dom in ("ci", "de"):
+            tags = dict(big, ncat=1 + (i % 2), gen="wrapped")
+            if hidden is not None:
+                tags["planted"] = [labels[j] for j in hidden]
+            out.append(_icase(dom, labels, ballots, **tags))
+        # transpose: alternatives = rows, ballots = columns
+        alabels = _labels(rng, nr)
+        vballots = [[alabels[i_] for i_ in range(nr) if rows[i_][j]] for j in range(nc)]
+        tags = dict(big, ncat=1 + (i % 2), gen="wrapped")
+        if hidden is not None:
+            tags["planted"] = list(hidden)
+        out.append(_icase("vi", alabels, vballots, **tags))
     # ---- (3) large planted --------------------------------------------------------------------------------
     nbi = 40 if quick else 400
     for i in range(nbi):
@@ -467,6 +626,8 @@ def _plan(c, r):
             plan.append(("ref", "c05.c1p_decide", [nc, rows]))
         if "planted" in tags:
             plan.append(("planted", "c05.c1p_check", [nc, rows, tags["planted"]]))
+        if "core" in tags:
+            plan.append(("core", "c05.c1p_core", [nc, rows, tags["core"][0], tags["core"][1]]))
         if okres and r[1][0] == 1:
             plan.append(("witness", "c05.c1p_check", [nc, rows, r[1][1]]))
         return plan
@@ -524,6 +685,11 @@ def judge(c, r, mres):
             return {"kind": "broken-correspondence", "reason": "generator bug: planted witness rejected by the checker"}
         if v != 1:
             return "%s verdict False although the planted witness is accepted by the verified checker" % what
+    if "core" in ans:
+        if ans["core"] != 1:
+            return {"kind": "broken-correspondence", "reason": "generator bug: embedded core not refuted by the model"}
+        if v != 0:
+            return "%s verdict True although the matrix contains a submatrix refuted by the verified reference" % what
     if v == 1 and ans.get("witness") != 1:
         return "%s returned a witness that the verified checker rejects: %r" % (what, val[1])
     if c["op"] == "c05.matrix":
@@ -532,6 +698,8 @@ def judge(c, r, mres):
                 continue
             if "ref" in ans and iv != ans["ref"]:
                 return "isC1P(%s) verdict %s, verified reference decider says %s" % (name, bool(iv), bool(ans["ref"]))
+            if ans.get("core") == 1 and iv != 0:
+                return "isC1P(%s) True although the matrix contains a submatrix refuted by the verified reference" % name
             if ans.get("planted") == 1 and iv != 1:
                 return "isC1P(%s) False although the planted column order is accepted by the verified checker" % name
             if iv != v:
@@ -555,20 +723,33 @@ def nontrivial(c, r, m):
     return nc >= 3 and any(sum(row) >= 2 and sum(row) < len(row) for row in rows)
 
 
+def _distinct_cols(c):
+    if c["op"] == "c05.matrix":
+        nc, rows = c["payload"]
+        return len({tuple(r[j] for r in rows) for j in range(nc)})
+    alts, ballots = c["payload"]
+    if c["op"][4:] in VOTER:
+        return len({tuple(sorted(b)) for b in ballots})
+    return len({tuple(a in b for b in ballots) for a in alts})
+
+
 def stats(c, r, m):
     v = r[1][0] if (isinstance(r, list) and len(r) == 2 and r[0] == 0) else "exc"
     tags = c["tags"]
-    ref = "ref" if any(lb == "ref" for lb, _, _ in _plan(c, r)) else ("planted" if "planted" in tags else "witness-only")
+    ref = "ref" if any(lb == "ref" for lb, _, _ in _plan(c, r)) else (
+        "planted" if "planted" in tags else ("refuted-core" if "core" in tags else "witness-only"))
     if c["op"] == "c05.matrix":
         nc, rows = c["payload"]
         size = "big" if tags.get("big") else "%dx%d" % (len(rows), nc) if tags.get("exh") else "rand<=6x7"
-        return ["matrix %s verdict=%s" % ("exh" if tags.get("exh") else tags.get("gen", "?"), v),
-                "matrix size %s" % size, "matrix %s" % ref]
+        return ["matrix %s verdict=%s" % (tags.get("gen") or ("exh" if tags.get("exh") else "?"), v),
+                "matrix size %s" % size, "matrix %s" % ref,
+                "matrix distinct columns %s verdict=%s" % (">=5" if _distinct_cols(c) >= 5 else "<5", v)]
     dom = c["op"][4:]
     size = "big" if tags.get("big") else ("exh" if tags.get("exh") else "rand")
     if dom == "cimat":
         return ["cimat %s ci=%s" % (size, m[0] if m else "?")]
-    return ["%s %s verdict=%s" % (dom, size, v), "%s %s" % (dom, ref)]
+    return ["%s %s verdict=%s" % (dom, size, v), "%s %s" % (dom, ref),
+            "%s distinct columns %s" % (dom, ">=5" if _distinct_cols(c) >= 5 else "<5")]
 
 
 def describe(c):
@@ -581,7 +762,7 @@ def describe(c):
 
 
 def shrink(c):
-    tags = {k: v for k, v in c["tags"].items() if k not in ("planted", "exh")}
+    tags = {k: v for k, v in c["tags"].items() if k not in ("planted", "exh", "core")}
     if c["op"] == "c05.matrix":
         nc, rows = c["payload"]
         for i in range(len(rows)):
